@@ -4,6 +4,8 @@ from ..facts import load, S, strip, nodes, is_lit, lit_name, AnalysisBroken
 from ..report import Result
 from .. import cfg as C
 from .. import pat as P
+from .. import guards as G
+import re
 
 TECHNIQUE = 'forward must-analysis (typestate) for the carried CR: no assignment to cr_aside while a CR may still be owed; pairing rules for the piece builders (to_str => clear, replay => clear); exit rules for the boundary state'
 
@@ -233,5 +235,46 @@ def run(repo='/repo', tier='quick'):
     okp = len(nm) == 1 and len(vl) == 1 and P.K(nm[0]['r']) == 'part->name' and P.K(vl[0]['r']) == 'part->value'
     under = any(a == ('part->type', '==', 'MULTIPART_PART_TEXT') for b, i, st in h.stmts() for x in nodes(st, lambda y: y is (nm[0] if nm else None)) for a, e in P.facts_at(h, b))
     res.check(okp and under, 'C14.e', h.name + ':text-part-to-param', 'param name/value are the text part\'s name/value', 'text parts are not turned into parameters with their own name and value', h.loc)
+    # every text part becomes a parameter: from the true edge of the TEXT test every path adds the parameter (or fails to allocate it)
+    tests = [b for b in h.blocks if h.cond_of(b) and P.canon(h.cond_of(b)[0]) == ('part->type', '==', 'MULTIPART_PART_TEXT')]
+    if len(tests) != 1:
+        res.violated('C14.e', h.name + ':text-test', 'expected one `part->type == MULTIPART_PART_TEXT` test in the finalisation loop, found %d' % len(tests), h.loc)
+    else:
+        npth, bad = 0, None
+        for atoms, events, end, seq in P.enum_paths_seq(h, (h.blocks[tests[0]]['succs'][0], -1)):
+            npth += 1
+            facts = [a for a, bb in atoms]
+            added = any(x[0] == 'stmt' and any(c.get('callee') == 'htp_tx_req_add_param' for c in nodes(x[3], lambda y: y.get('k') == 'call')) for x in seq)
+            allocfail = ('param', '==', '0') in facts
+            if not added and not allocfail:
+                bad = facts
+        res.check(bad is None and npth > 0, 'C14.e', h.name + ':every-text-part-added', 'all %d paths from the TEXT test add the parameter (or fail to allocate it)' % npth,
+                  'a text part can be skipped on a path with %s: the field is listed as a part but is missing from the request parameters (an empty field has value NULL)' % (bad,), h.blocks[tests[0]]['stmts'][-1]['loc'])
+    # look-ahead guards of the escape handling are exact: a read at cursor + k is guarded by (cursor + k) < len, not by a larger offset
+    for fn in (sc, dc):
+        for b in fn.blocks:
+            cnd = fn.cond_of(b)
+            if not cnd:
+                continue
+            e = strip(cnd[0])
+            if not (e.get('k') == 'bin' and e['op'] in ('==', '!=')):
+                continue
+            l = strip(e['l'])
+            k = None
+            if l.get('k') == 'index':                                 # data[pos + k]
+                t = G.term(l['idx'])
+                cur, k = (t[0], t[1]) if t else (None, None)
+            elif l.get('k') == 'un' and l['op'] == '*':                # *(s + k): s walks in step with the position counter
+                t = G.term(l['e'])
+                cur, k = ('<ptr>', t[1]) if t else (None, None)
+            if not k or k < 1:
+                continue
+            gs = [a for a, ed_ in P.facts_at(fn, b) if a[1] == '<' and a[2] == 'len' and re.match(r'^\((\w+) \+ (\d+)\)$', a[0])]
+            if not gs:
+                res.violated('C14.f', '%s:look-ahead+%d:guarded' % (fn.name, k), 'the look-ahead at +%d is read without a (position + %d) < len guard' % (k, k), cnd[0]['loc'])
+                continue
+            g = min(int(re.match(r'^\((\w+) \+ (\d+)\)$', a[0]).group(2)) for a in gs)
+            res.check(g == k, 'C14.f', '%s:look-ahead+%d:guard-exact' % (fn.name, k), 'guarded by (position + %d) < len' % k,
+                      'the look-ahead at +%d is guarded by (position + %d) < len: %s' % (k, g, 'an escape pair that ends the value is not decoded' if g > k else 'it reads past the value'), cnd[0]['loc'])
     res.assumptions.append('byte-exact parts and equality of flags across chunkings are not decided')
     return res
